@@ -190,33 +190,38 @@ class SubPoly(object):
 # binary operators, rvalue and lvalue implementations.
 # (Note that resulting object length is max length.
 #------------------------------------------------------------------------------
+  def _zeros(self,dim):
+      res = self.__class__(0,size=self.size,dim=dim)
+      # two empty operands give an empty result (not a 1-element one)
+      if dim==0: res.ival = []
+      return res
   def __and__(self,rvalue):
       assert self.size==rvalue.size
-      res = self.__class__(0,size=self.size,dim=max(self.dim,rvalue.dim))
+      res = self._zeros(max(self.dim,rvalue.dim))
       for j in range(res.dim):
           res[j] = self.e(j)&rvalue.e(j)
       return res
   def __or__(self,rvalue):
       assert self.size==rvalue.size
-      res = self.__class__(0,size=self.size,dim=max(self.dim,rvalue.dim))
+      res = self._zeros(max(self.dim,rvalue.dim))
       for j in range(self.dim):
           res[j] = self.e(j)|rvalue.e(j)
       return res
   def __xor__(self,rvalue):
       assert self.size==rvalue.size
-      res = self.__class__(0,size=self.size,dim=max(self.dim,rvalue.dim))
+      res = self._zeros(max(self.dim,rvalue.dim))
       for j in range(self.dim):
           res[j] = self.e(j)^rvalue.e(j)
       return res
   def __add__(self,rvalue):
       assert self.size==rvalue.size
-      res = self.__class__(0,size=self.size,dim=max(self.dim,rvalue.dim))
+      res = self._zeros(max(self.dim,rvalue.dim))
       for j in range(self.dim):
           res[j] = self.e(j)+rvalue.e(j)
       return res
   def __sub__(self,rvalue):
       assert self.size==rvalue.size
-      res = self.__class__(0,size=self.size,dim=max(self.dim,rvalue.dim))
+      res = self._zeros(max(self.dim,rvalue.dim))
       for j in range(self.dim):
           res[j] = self.e(j)-rvalue.e(j)
       return res
